@@ -27,7 +27,8 @@ CROSS_KEY = ("MustSucceed cross-scope: fields of independent scopes (a=0 with b=
 
 
 # how the caller hands over tags (see Session.add)
-TAGFORMS = (0, 0, 1, 2, 3, 3, 4, 6, 7, 7, 8)        # (5, a one-shot generator, is no 'collection of strings': left out)
+TAGFORMS = (0, 0, 1, 2, 3, 3, 4, 6, 8)    # (left out: 5, a one-shot generator, is no 'collection of strings'; 7, a
+                                          # string with stray spaces, is not clearly a 'space-separated list of tags')
 # An automatic field given 2^k - 1 with k >= 48 gets k + 1 bits from rig (int(log(v, 2)) + 1 in floating point), so a
 # bit field that the widths fill exactly was refused.  Found by the coverage audit of the sixth session on the pinned
 # tree and repaired (fix: 62f82cb, max_value.bit_length()); the inputs are generated on every run
